@@ -48,6 +48,7 @@ def dl_boundary_scripts(rng, n):
 
 def run(ctx):
     import solvercheck as sc
+    answercheck.run_corpus(ctx, "C02", judge_sat=True, judge_unsat=False)
     for text, logic, c in dl_boundary_scripts(ctx.rng, 40 if ctx.quick else 600):
         rc, res, out, err = sc.run_aligned(text, timeout=10)
         ans = answercheck.answers_of(text, res, out) if rc in (0, 1) else None
